@@ -61,6 +61,13 @@ package ciphersuite
 //@ ensures aad-from-received-header: called("AEAD.Open") ==> (called("generateAEADAdditionalData") || called("generateAEADAdditionalDataCID"))
 //@ ensures aad-is-what-was-built: called("AEAD.Open") && old(in[0]) != 25 ==> sameSlice(argBytes("AEAD.Open", 4), retBytes("generateAEADAdditionalData", 0))
 //@ ensures aad-cid-is-what-was-built: called("AEAD.Open") && old(in[0]) == 25 ==> sameSlice(argBytes("AEAD.Open", 4), retBytes("generateAEADAdditionalDataCID", 0))
+// the whole record body after the explicit nonce is what is authenticated, and the AAD length field is the
+// plaintext length (body minus explicit nonce minus tag)
+//@ ensures ciphertext-is-record-body: called("AEAD.Open") && old(in[0]) != 25 ==> sameArray(argBytes("AEAD.Open", 3), in) && offsetOf(argBytes("AEAD.Open", 3)) == offsetOf(in) + 21 && len(argBytes("AEAD.Open", 3)) == len(in) - 21
+//@ ensures ciphertext-is-record-body-cid: called("AEAD.Open") && old(in[0]) == 25 ==> sameArray(argBytes("AEAD.Open", 3), in) && offsetOf(argBytes("AEAD.Open", 3)) == offsetOf(in) + 21 + len(header.ConnectionID) && len(argBytes("AEAD.Open", 3)) == len(in) - 21 - len(header.ConnectionID)
+//@ ensures aad-length-is-plaintext-length: called("AEAD.Open") && old(in[0]) != 25 ==> argInt("generateAEADAdditionalData", 1) == len(in) - 21 - a.tagLength
+//@ ensures aad-length-is-plaintext-length-cid: called("AEAD.Open") && old(in[0]) == 25 ==> argInt("generateAEADAdditionalDataCID", 1) == len(in) - 21 - len(header.ConnectionID) - a.tagLength
+//@ ensures open-error-rejected: called("AEAD.Open") && retErr("AEAD.Open", 1) != nil ==> result1 != nil && isNil(result0)
 //@ end
 
 // CBC records (RFC 5246 6.2.3.2, MAC-then-encrypt): a record is returned only if the padding check
@@ -78,10 +85,46 @@ package ciphersuite
 //@ ensures ccs-untouched: result1 == nil && old(in[0]) == 20 ==> !called("examinePadding") && sameSlice(result0, in)
 //@ end
 
+// RFC 5246 6.2.3.1 / RFC 6347 4.1.2.1: MAC(MAC_write_key, epoch(2) || sequence_number(6) || type(1) || version(2) ||
+// length(2) || fragment). Every bit of the 48-bit sequence number is covered: the 13-byte pseudo header is the
+// first thing written into the HMAC, the fragment the second. (inline: the clauses use always(), which callers
+// under contract cannot import; CBC.Decrypt/Encrypt see the body instead.)
+//@ define MACHDR(b) (len(b) == 13 && b[0] == byte(epoch >> 8) && b[1] == byte(epoch) && b[2] == byte(sequenceNumber >> 40) && b[3] == byte(sequenceNumber >> 32) && b[4] == byte(sequenceNumber >> 24) && b[5] == byte(sequenceNumber >> 16) && b[6] == byte(sequenceNumber >> 8) && b[7] == byte(sequenceNumber) && b[8] == byte(contentType) && b[9] == protocolVersion.Major && b[10] == protocolVersion.Minor && b[11] == byte(uint16(len(payload)) >> 8) && b[12] == byte(uint16(len(payload))))
 //@ func CBC.hmac
-//@ noinline
+//@ inline
+//@ watch Hash.Write hmac.New Hash.Sum
+//@ ensures keyed: called("hmac.New") && sameSlice(argBytes("hmac.New", 1), key)
+//@ ensures header-then-fragment: result1 == nil ==> ncalls("Hash.Write") == 2 && sameSlice(argBytes("Hash.Write", 1), payload)
+//@ ensures mac-input-is-header-or-fragment: always("Hash.Write", "sameSlice(argBytes(\"Hash.Write\", 1), payload) || MACHDR(argBytes(\"Hash.Write\", 1))")
+//@ ensures header-written: result1 == nil ==> !always("Hash.Write", "sameSlice(argBytes(\"Hash.Write\", 1), payload)")
+//@ ensures result-is-sum: result1 == nil ==> called("Hash.Sum") && sameSlice(result0, retBytes("Hash.Sum", 0))
 //@ end
 
 //@ func CBC.hmacCID
 //@ noinline
+//@ end
+
+// ChaCha20-Poly1305 record opening (RFC 7905): no explicit nonce; the nonce is write_IV XOR (epoch || sequence
+// number) of the *received* header, the whole body after the header is authenticated, the AAD is built from the
+// received header with the plaintext length (body minus 16-byte tag).
+//@ func ChaCha20Poly1305.Decrypt
+//@ watch AEAD.Open generateAEADAdditionalData generateAEADAdditionalDataCID
+//@ requires args: c.remoteCipher != nil && len(c.remoteWriteIV) == 12 && len(header.ConnectionID) <= 255
+//@ loop #1: iv-kept: len(c.remoteWriteIV) == 12 && forall(0, 12, func(j int) bool { return c.remoteWriteIV[j] == old(c.remoteWriteIV[j]) })
+//@ loop #1: seq-from-received-bytes: len(in) >= 13 && seq64 == uint64(in[3])<<56 | uint64(in[4])<<48 | uint64(in[5])<<40 | uint64(in[6])<<32 | uint64(in[7])<<24 | uint64(in[8])<<16 | uint64(in[9])<<8 | uint64(in[10])
+//@ loop #1: nonce-prefix-is-iv: forall(0, 4, func(j int) bool { return nonce[j] == c.remoteWriteIV[j] })
+//@ loop #1: nonce-is-iv-xor-epoch-and-sequence: forall(0, i, func(j int) bool { return nonce[4+j] == c.remoteWriteIV[4+j] ^ byte(seq64 >> (56 - uint(j)*8)) })
+//@ loop #1: nonce-rest-is-iv: forall(i, 8, func(j int) bool { return nonce[4+j] == c.remoteWriteIV[4+j] })
+//@ ensures short-rejected: len(in) < 13 ==> result1 != nil
+//@ ensures opened-or-ccs: result1 == nil ==> old(in[0]) == 20 || (called("AEAD.Open") && retErr("AEAD.Open", 1) == nil)
+//@ ensures ccs-untouched: result1 == nil && old(in[0]) == 20 ==> !called("AEAD.Open") && sameSlice(result0, in)
+//@ ensures open-once: ncalls("AEAD.Open") <= 1
+//@ ensures open-error-rejected: called("AEAD.Open") && retErr("AEAD.Open", 1) != nil ==> result1 != nil && isNil(result0)
+//@ ensures nonce-length: called("AEAD.Open") ==> len(argBytes("AEAD.Open", 2)) == 12
+//@ ensures aad-is-what-was-built: called("AEAD.Open") && old(in[0]) != 25 ==> sameSlice(argBytes("AEAD.Open", 4), retBytes("generateAEADAdditionalData", 0))
+//@ ensures aad-cid-is-what-was-built: called("AEAD.Open") && old(in[0]) == 25 ==> sameSlice(argBytes("AEAD.Open", 4), retBytes("generateAEADAdditionalDataCID", 0))
+//@ ensures ciphertext-is-record-body: called("AEAD.Open") && old(in[0]) != 25 ==> sameArray(argBytes("AEAD.Open", 3), in) && offsetOf(argBytes("AEAD.Open", 3)) == offsetOf(in) + 13 && len(argBytes("AEAD.Open", 3)) == len(in) - 13
+//@ ensures ciphertext-is-record-body-cid: called("AEAD.Open") && old(in[0]) == 25 ==> sameArray(argBytes("AEAD.Open", 3), in) && offsetOf(argBytes("AEAD.Open", 3)) == offsetOf(in) + 13 + len(header.ConnectionID) && len(argBytes("AEAD.Open", 3)) == len(in) - 13 - len(header.ConnectionID)
+//@ ensures aad-length-is-plaintext-length: called("AEAD.Open") && old(in[0]) != 25 ==> argInt("generateAEADAdditionalData", 1) == len(in) - 13 - 16
+//@ ensures aad-length-is-plaintext-length-cid: called("AEAD.Open") && old(in[0]) == 25 ==> argInt("generateAEADAdditionalDataCID", 1) == len(in) - 13 - len(header.ConnectionID) - 16
 //@ end
